@@ -320,7 +320,16 @@ def run_case(sh, s, tier, d, case, only=None, prebuilt=None):
                         with open(wpath, 'rb') as fh:
                             b2 = fh.read()
                         if b2 != b1:
-                            sh.violation('c07:file:second-pack-%s' % classify_second_pack(b1, b2, lbl), dict(wit, sizes=(len(b1), len(b2))), c2)
+                            what = classify_second_pack(b1, b2, lbl)
+                            if lbl == 'earlier' and gc and what.endswith('-time-changed-the-file'):
+                                # model feature: does the earlier pack drop only records of objects that are unreachable from
+                                # the root at that earlier time (per the unpacked reference)?
+                                import time as _time
+                                eff2 = TimeStamp(*_time.gmtime(t2)[:5] + (t2 % 60,)).raw()
+                                reach2 = set(view(ref, p64(u64(eff2) + 1), strong_refs))
+                                if dropped_oids(b1, b2) and not (dropped_oids(b1, b2) & reach2):
+                                    what = 'earlier-time-drops-only-records-of-objects-unreachable-at-that-time'
+                            sh.violation('c07:file:second-pack-%s' % what, dict(wit, sizes=(len(b1), len(b2))), c2)
                             break
                 sh.case(digest(s, ti, gc) if freed and post_before else None)
     finally:
@@ -498,6 +507,21 @@ def driver_case(sh, s, tier, d, case, only=None):
     finally:
         ref.close()
     return dr.trace
+
+
+def dropped_oids(b1, b2):
+    """oids of the records present in file image b1 and absent from b2 (independent parse)"""
+    from zv.fsparse import parse, canon_txns
+    d2 = {t[0]: list(t[5]) for t in canon_txns(b2, parse(b2)[0])}
+    out = set()
+    for t in canon_txns(b1, parse(b1)[0]):
+        rest = d2.get(t[0], [])
+        for r in t[5]:
+            if r in rest:
+                rest.remove(r)
+            else:
+                out.add(r[0])
+    return out
 
 
 def classify_second_pack(b1, b2, lbl):
